@@ -212,6 +212,11 @@ impl<'a, H: HashChain> InMemoryHssPublicKey<'a, H> {
 
         let public_key = InMemoryLmsPublicKey::new(&data[index..])?;
 
+        // RFC 8554, Algorithm 6: the public key must have exactly the expected length
+        if data.len() - index != public_key.as_slice().len() {
+            return None;
+        }
+
         Some(Self {
             public_key,
             level: level as usize,
